@@ -20,7 +20,11 @@
 //   R N <nb node slots> ; <used> <pos hex x3> <momentum hex x3> … | F <nb face slots> ; 1 n1 n2 n3 type <normal hex x3> <area hex> (or ; 0) …
 //     | E <nb edges> ; n1 n2 f1 f2 … (std::set order) | FN <free_node_queue_> | FF <free_face_queue_>
 // a std::exception thrown by run_iteration is reported as `X <integrity|badopt|other:what>` and ends the run.
-// usage: h_solver <param.xml> <iters> <threads> <dump_every> [tx ty tz (hex)] [full|run|tissue|slots]
+// with the mode word `tslots` (C14, assembled TISSUE iteration WITH remeshing) the output is `S`, `J`, and per cell the `C` line,
+// the `R` line of mode `slots` and
+//   B <force hex x3> <normal hex x3> <curvature hex> <coupled cell node | - -> <closest squared distance hex> …
+// for EVERY node slot, used or not, raw (what a released slot holds after node::reset is part of the compared state).
+// usage: h_solver <param.xml> <iters> <threads> <dump_every> [tx ty tz (hex)] [full|run|tissue|slots|tslots]
 #include "proto.hpp"
 #include "simulation_initializer.hpp"
 #include "solver.hpp"
@@ -95,6 +99,20 @@ public:
         for(unsigned i : c->free_face_queue_) o << ' ' << i;
         if(c->free_face_queue_.empty()) o << ' ';
         std::cout << o.str() << '\n';
+    }
+    // the node attributes of every slot, raw (mode `tslots`)
+    static void dump_attrs_raw(cell_ptr c){
+        #if CONTACT_MODEL_INDEX == 1
+        std::ostringstream o;
+        o << "B";
+        for(const node& n : c->node_lst_){
+            o << ' ' << hv(n.force_) << ' ' << hv(n.normal_) << ' ' << to_hex(n.curvature_) << ' ';
+            if(n.coupled_node_.has_value()) o << n.coupled_node_.value().first << ' ' << n.coupled_node_.value().second;
+            else o << "- -";
+            o << ' ' << to_hex(n.squared_distance_to_closest_node_);
+        }
+        std::cout << o.str() << '\n';
+        #endif
     }
     // the additional state read by the next contact phase (mode `tissue`)
     static void dump_contact_state(cell_ptr c){
@@ -175,15 +193,16 @@ int main(int argc, char** argv){
                 for(int i = 0; i <= iters; i++){
                     if(i % every == 0 || i == iters){
                         std::cout << "S " << s.iteration() << ' ' << to_hex(s.time()) << ' ' << s.get_cell_lst().size() << '\n';
-                        if(mode == "slots") std::cout << "J " << s.file_number() << '\n';
+                        if(mode == "slots" || mode == "tslots") std::cout << "J " << s.file_number() << '\n';
                         for(cell_ptr c : s.get_cell_lst()){
-                            cell_tester::dump(c, true);
+                            cell_tester::dump(c, mode != "tslots");
                             if(mode == "tissue") cell_tester::dump_contact_state(c);
-                            if(mode == "slots") cell_tester::dump_slots(c);
+                            if(mode == "slots" || mode == "tslots") cell_tester::dump_slots(c);
+                            if(mode == "tslots") cell_tester::dump_attrs_raw(c);
                         }
                     }
                     if(i == iters || s.get_cell_lst().empty()) break;
-                    if(mode == "slots"){
+                    if(mode == "slots" || mode == "tslots"){
                         try{ s.run_iteration(); }
                         catch(const std::exception& e){ std::cout << "X " << exc_name(e) << '\n'; break; }
                     }
